@@ -10,32 +10,32 @@ HOOK_COMMITS = ["204cfe3", "2edc694", "e1d8638"]
 CHECKS = {
  "C15": ("exploration",
          "Go race detector over a mixed concurrent workload in child processes of a -race build (reports logged, parsed and de-duplicated by the innermost bluge frames of both accesses), Close-under-load with a goroutine-dump deadlock oracle, and reopen-after-close content check",
-         "Writers on disjoint id spaces, reader acquisition, 3..8 parallel searches per reader covering the scored and unscored conjunction/disjunction optimisations, phrase, sorted top-N with aggregations and stored-field loads run under seeded jitter and GOMAXPROCS 1..16 while merges and persists are in flight; the writer is closed after all Batch callers returned (in a third of the runs while searches still run) and the directory reopened. Any race report with bluge frames, a dead child, a Close that provably deadlocks or lost acknowledged content fails the check. Held on the executions observed; the race detector only sees executed accesses.",
+         "Writers on disjoint id spaces, reader acquisition, 3..8 parallel searches per reader covering the scored and unscored conjunction/disjunction optimisations, phrase, sorted top-N with aggregations and stored-field loads run under seeded jitter and GOMAXPROCS 1..16 while merges and persists are in flight; the writer is closed after all Batch callers returned (in a third of the runs while searches still run) and the directory reopened. Any race report with bluge frames, a dead child, a Close that provably deadlocks or lost acknowledged content fails the check. Held on the executions observed; the race detector only sees executed accesses. Both tiers run twice: on the ordinary build and on a build against a scratch copy of the working tree in which cmd/yieldify inserted a seeded perturbation hook between all critical sections of package index (before every Lock / send / receive / select, after every Unlock / close / go), so that windows without a directory or plug-in seam are widened too; the yield points reached are reported. A probe runs the same workload on the second bundled segment format (ice v2), whose shared stored-field buffer is a listed finding.",
          "Trusts: the Go race detector; 40 s Close watchdog decided by two goroutine dumps (else inconclusive).",
          "DESIGN.md §4 C15"),
  "C04": ("exploration",
          "runtime monitoring of held readers in child processes: complete fingerprints (count, documents with stored fields, document values, dictionaries, query battery) re-taken twice back to back after batches, around scripted background steps (segment removal, merge introduction, persist swap), at quiescence and after Writer.Close; liveness assertions in a wrapping segment plug-in (use after handle close); child death = fault",
-         "Readers of several ages (current-root, superseded, OpenReader beside the live writer, outliving Close) are kept open while a merge-happy writer with seeded jitter continues; each reader's fingerprint must never change and its content must equal the abstract index at acquisition; gates place one background step of each kind between two reads and the log of realised (reader kind, step kind) pairs is reported. Held on the runs observed.",
+         "Readers of several ages (current-root, superseded, OpenReader beside the live writer, outliving Close) are kept open while a merge-happy writer with seeded jitter continues; each reader's fingerprint must never change and its content must equal the abstract index at acquisition; gates place one background step of each kind between two reads and the log of realised (reader kind, step kind) pairs is reported. Held on the runs observed. Both tiers run twice: on the ordinary build and on a build against a scratch copy of the working tree in which cmd/yieldify inserted a seeded perturbation hook between all critical sections of package index (before every Lock / send / receive / select, after every Unlock / close / go), so that windows without a directory or plug-in seam are widened too; the yield points reached are reported.",
          "Trusts: fingerprint determinism (scores included), role detection, the plug-in wrapper's handle table.",
          "DESIGN.md §4 C04"),
  "C05": ("exploration",
          "linearizability checking (porcupine) of client-boundary histories recorded from real concurrent Writer.Batch / Writer.Reader calls, against the abstract index as sequential model; schedules from seeded jitter at all seams and from scripted gates on the obsoletes computation (stale-root window)",
-         "Histories of 2..8 writers and 1..3 readers over <= 4 ids (safe and unsafe mode, memory and file-system directories, merges on) are recorded with call/return stamps from one atomic clock and a final read, and each is decided by porcupine: batches must take effect atomically in a real-time-respecting total order and every read must equal the state after a prefix. Gate scenarios force the window in which a batch computed its obsoletes against a root that a conflicting batch (or a persist / merge) has meanwhile replaced. Many short histories; checker time-outs are counted as inconclusive.",
+         "Histories of 2..8 writers and 1..3 readers over <= 4 ids (safe and unsafe mode, memory and file-system directories, merges on) are recorded with call/return stamps from one atomic clock and a final read, and each is decided by porcupine: batches must take effect atomically in a real-time-respecting total order and every read must equal the state after a prefix. Gate scenarios force the window in which a batch computed its obsoletes against a root that a conflicting batch (or a persist / merge) has meanwhile replaced. Many short histories; checker time-outs are counted as inconclusive. Both tiers run twice: on the ordinary build and on a build against a scratch copy of the working tree in which cmd/yieldify inserted a seeded perturbation hook between all critical sections of package index (before every Lock / send / receive / select, after every Unlock / close / go), so that windows without a directory or plug-in seam are widened too; the yield points reached are reported.",
          "Trusts: porcupine v1.3.0; the 15-line sequential model; stamps taken at the client boundary.",
          "DESIGN.md §2.7, §4 C05"),
  "C06": ("exploration",
          "scripted-gate runtime monitoring: the merger or persister of a real writer is held at each phase boundary of file merges, in-memory merges and persist swaps (directory, plug-in and event seams) while conflicting batches land; reader-vs-abstract-index oracle while held, after release, after a further batch and after reopen",
-         "For every (merge kind, phase, delete pattern) placement the background goroutine is blocked at the phase point, batches delete/update documents of exactly the segments under merge (from the Merge call's inputs), and the content must equal the abstract index at every stage; placements whose gate was not reached are counted as not realised. Skipped-merge introductions and merge introductions are read from the writer's statistics to show the paths were taken. Enumerated over the placement grid; other interleavings sampled by repetition.",
+         "For every (merge kind, phase, delete pattern) placement the background goroutine is blocked at the phase point, batches delete/update documents of exactly the segments under merge (from the Merge call's inputs), and the content must equal the abstract index at every stage; placements whose gate was not reached are counted as not realised. Skipped-merge introductions and merge introductions are read from the writer's statistics to show the paths were taken. Enumerated over the placement grid; other interleavings sampled by repetition. Both tiers run twice: on the ordinary build and on a build against a scratch copy of the working tree in which cmd/yieldify inserted a seeded perturbation hook between all critical sections of package index (before every Lock / send / receive / select, after every Unlock / close / go), so that windows without a directory or plug-in seam are widened too; the yield points reached are reported.",
          "Trusts: role detection from goroutine stacks; gate watchdog 8 s (placement then inconclusive).",
          "DESIGN.md §2.5, §4 C06"),
  "C01": ("exploration",
          "reference-model monitor: after every Batch call of generated histories a fresh Reader of the real writer is compared (Count, match-all with stored fields, lookup of every id) with the abstract index, over a configuration matrix, with merges/persists/segment drops provoked and seeded jitter at every directory, plug-in and event seam",
-         "Histories of 24..50 calls over 7 ids (updates, inserts of existing ids, updates carrying another id, deletes, empty and delete-only batches, documents of all field kinds) run on {file system, memory} x {ice v1, v2} x {safe, unsafe} with merge-happy options; the reader taken after each call and after background work settled must equal the abstract index exactly. Layouts and merges actually seen are measured through the hooks. Held on the histories and schedules observed.",
+         "Histories of 24..50 calls over 7 ids (updates, inserts of existing ids, updates carrying another id, deletes, empty and delete-only batches, documents of all field kinds) run on {file system, memory} x {ice v1, v2} x {safe, unsafe} with merge-happy options; the reader taken after each call and after background work settled must equal the abstract index exactly. Layouts and merges actually seen are measured through the hooks. Held on the histories and schedules observed. Both tiers run twice: on the ordinary build and on a build against a scratch copy of the working tree in which cmd/yieldify inserted a seeded perturbation hook between all critical sections of package index (before every Lock / send / receive / select, after every Unlock / close / go), so that windows without a directory or plug-in seam are widened too; the yield points reached are reported.",
          "Trusts: the abstract index (a 15-line Apply), CanonStored decoding of stored fields with the public decoders. Single issuer.",
          "DESIGN.md §4 C01"),
  "C18": ("exploration",
          "hostile-input monitoring of every bundled analyzer, tokenizer, token filter configuration and char filter in child processes (panic capture, progress watchdog) with token-stream oracles (determinism, position increments, offset ranges, tokenizer slice equality) and an index/search round trip",
-         "Script-aware and byte-level generators feed all 24 analyzers, 8 tokenizers, ~75 filter configurations (fed synthetic token streams directly, including invalid UTF-8, empty and one-rune tokens) and 5 char filters; every output is checked for the stated token invariants, two runs must agree, and every fourth tokenised text is indexed and must be found by a match query requiring all of its own terms. Held on the inputs explored.",
+         "Script-aware and byte-level generators, plus an enumerated sweep of all (rune, mark) / (mark, rune) pairs over nine script blocks x 22 combining, voiced, joiner and width marks, feed all 24 analyzers, 8 tokenizers, ~75 filter configurations (fed synthetic token streams directly, including invalid UTF-8, empty and one-rune tokens) and 5 char filters; every output is checked for the stated token invariants, two runs must agree, and every fourth tokenised text is indexed and must be found by a match query requiring all of its own terms. Held on the inputs explored.",
          "Trusts: child-process observation; the analyzer's own CharFilters define 'the text the tokenizer saw'. The round trip hands the field its own copy of the bytes (token filters rewrite terms in place).",
          "DESIGN.md §4 C18"),
  "C20": ("exploration",
@@ -50,13 +50,13 @@ CHECKS = {
          "DESIGN.md §4 C14"),
  "C11": ("exploration",
          "on-line invariant monitor hooked into a recording Directory wrapper (directory read back, decoded and CRC-checked after every snapshot persist and every remove; closer pairing; /proc/self/fd; reopen; second-writer refusal) under merge-happy runs with jitter, plus a lock hand-off stress",
-         "During real merge-happy runs with retention 1..3 the monitor evaluates, at every boundary after a snapshot persist or a remove and with no operation half-way, that enough loadable snapshots with all their segment files exist and that a removed segment does not belong to the live root; at the end every Load closer must have been closed exactly once, no descriptor under the directory may be open, the directory must reopen at once with the right content and a second writer must have been refused harmlessly. Held on the runs observed; the lock hand-off race is a listed finding.",
+         "During real merge-happy runs with retention 1..3 the monitor evaluates, at every boundary after a snapshot persist or a remove and with no operation half-way, that enough loadable snapshots with all their segment files exist and that a removed segment does not belong to the live root; at the end every Load closer must have been closed exactly once, no descriptor under the directory may be open, the directory must reopen at once with the right content and further writers must have been refused harmlessly (three attempts in a row at three moments of the first writer's life: a refusal must leave the lock in force). Held on the runs observed; the lock hand-off race is a listed finding.",
          "Trusts: the recording wrapper (operations serialised against the read-back only), the harness' decoder use (real ReadFrom + CRC).",
          "DESIGN.md §4 C11"),
  "C02": ("fault_enumeration",
          "offline checker over recorded directory-operation traces of real runs: ordering facts at every acknowledgement, and every crash point (boundary between recorded operations) materialised as a directory image and opened by the real OpenReader/OpenWriter in a child process, judged against the abstract index",
-         "Real writers (safe mode, unsafe mode with persisted-callbacks, merge-happy / in-memory-merge / retention 1..3) run generated histories on a real directory behind a recording wrapper with seeded jitter at every seam; for each trace all operation boundaries are enumerated and each distinct image is recovered in a child: the content must be the abstract index after a batch between the last acknowledged and the last started one. Exhaustive over the boundaries of each recorded trace; interleavings sampled.",
-         "Storage model: a returned fsync means durable content, directory entries durable at operation completion, no bit rot. Acknowledgements logged after the fact (lenient). Single issuer so that applied order = call order.",
+         "Real writers (safe mode, unsafe mode with persisted-callbacks, merge-happy / in-memory-merge / retention 1..3) run generated histories on a real directory behind a recording wrapper with seeded jitter at every seam; for each trace all operation boundaries are enumerated and each distinct image is recovered in a child: the content must be the abstract index after a batch between the last acknowledged and the last started one. Exhaustive over the boundaries of each recorded trace; interleavings sampled. A second engine runs 2..4 concurrent issuers on disjoint ids through the fully instrumented rig and judges every crash image per issuer (that issuer's documents must be its own state after j batches, last acknowledged <= j <= last called). Both tiers run twice: on the ordinary build and on a build against a scratch copy of the working tree in which cmd/yieldify inserted a seeded perturbation hook between all critical sections of package index (before every Lock / send / receive / select, after every Unlock / close / go), so that windows without a directory or plug-in seam are widened too; the yield points reached are reported.",
+         "Storage model: a returned fsync means durable content, directory entries durable at operation completion, no bit rot. Acknowledgements logged after the fact (lenient). Single issuer in the first engine so that applied order = call order; per-issuer order in the concurrent engine.",
          "DESIGN.md §2.6, §4 C02"),
  "C03": ("fault_enumeration",
          "crash-image enumeration over recorded traces including every torn state of the persist in flight (prefixes, zero-filled, half-written, stale tails), recovery by the real code in child processes, and depth-2 crash/recover/continue/crash sequences with their own recorded traces",
@@ -70,12 +70,12 @@ CHECKS = {
          "DESIGN.md §4 C13"),
  "C12": ("exploration",
          "runtime oracle on the real encoder/decoder (round trip of generated snapshots) + hostile-input monitoring in child processes: every truncation / bit flip / tail / length attack of a real snapshot file opened through OpenReader and OpenWriter with both loaders, allocation measured, faults observed as child deaths",
-         "Generated snapshots (0..300 segments, ids to 2^64-1, bitmaps to thousands of entries, encodings well beyond the 4096-byte read buffer) must read back equal; every damaged variant of the newest snapshot of a real directory must be rejected without a fault, within an allocation budget, and lead to the older intact snapshot (epoch and content checked); decoder-level attacks run straight into ReadFrom under an address-space limit. Exhaustive over truncations and single-bit flips of the file used; sampled otherwise.",
+         "Generated snapshots (0..300 segments, ids to 2^64-1, bitmaps to thousands of entries, encodings well beyond the 4096-byte read buffer) must read back equal; every damaged variant of the newest snapshot of a real directory must be rejected without a fault, within an allocation budget, and lead to the older intact snapshot (epoch and content checked); a sample of the same damages on every retained NON-newest snapshot must leave OpenReader and OpenWriter on the intact newest one; decoder-level attacks run straight into ReadFrom under an address-space limit. Exhaustive over truncations and single-bit flips of the file used; sampled otherwise.",
          "Trusts: child-process observation (a dead child = fault), runtime.MemStats for allocation. Segment type strings of >= 3 characters (the bundled plugins use \"ice\").",
          "DESIGN.md §4 C12"),
  "C08": ("exploration",
-         "differential runtime oracle: the same document multiset built by 13 physical recipes, every build answering the same generated requests, canonical answers compared pairwise against the one-batch build",
-         "For generated corpora (including the empty one) every recipe (batch partitioning, ice v1/v2, optimisations off, merge-happy memory/disk, reopen, Backup+OpenReader, OfflineWriter, histories with deletions, MultiSearch over partitions, score mode none) must give the same id multiset, stored fields, distinct-key order and aggregations, and bit-comparable scores when neither side has merged segments or pending deletions. Held on the corpora, recipes and requests explored.",
+         "differential runtime oracle: the same document multiset built by 14 physical recipes, every build answering the same generated requests, canonical answers compared pairwise against the one-batch build",
+         "For generated corpora (including the empty one) every recipe (batch partitioning, ice v1/v2, optimisations off, merge-happy memory/disk, reopen, Backup+OpenReader, OfflineWriter, OfflineWriter prefix + appended batches, histories with deletions, MultiSearch over partitions; each layout also asked with score mode none) must give the same id multiset, stored fields, distinct-key order and aggregations, and bit-comparable scores when neither side has merged segments or pending deletions. Held on the corpora, recipes and requests explored.",
          "Trusts: canonicalisation (ties under field sorts compared as sets; terms size above vocabulary). Layout differences are measured through the hook (segment counts) so that 'different layout' is not assumed.",
          "DESIGN.md §4 C08"),
  "C17": ("exploration",
@@ -145,7 +145,7 @@ def main():
         },
         "engines": [
             {"name": "vcheck", "path": "/verif/harness", "serves_properties": [c["property_id"] for c in checks],
-             "kind_free_text": "Go harness: runtime monitors / reference-model oracles / trace and history checkers driving the real bluge code built from /repo with -tags verif; child processes for anything that may fault; -race and os-overlay build variants"},
+             "kind_free_text": "Go harness: runtime monitors / reference-model oracles / trace and history checkers driving the real bluge code built from /repo with -tags verif; child processes for anything that may fault; -race, os-overlay and yield-instrumented (cmd/yieldify) build variants"},
         ],
         "checks": checks,
         "not_applicable": na,
